@@ -142,6 +142,70 @@ func (a *allocAnchors) methods(p *core.Prog) []*ssa.Function {
 	return out
 }
 
+// chargedCall: fn calls one of its function-valued parameters, and every call site of fn in the package
+// passes a closure (or function) whose body makes a growing call (not Free) on the wrapped allocator.
+// Returns that call and the number of call sites it stands for.
+func (a *allocAnchors) chargedCall(p *core.Prog, fn *ssa.Function) (*ssa.Call, int) {
+	var pc *ssa.Call
+	idx := -1
+	core.EachInstr(fn, func(i ssa.Instruction) {
+		cl, ok := i.(*ssa.Call)
+		if !ok || cl.Call.IsInvoke() {
+			return
+		}
+		if prm, ok := cl.Call.Value.(*ssa.Parameter); ok {
+			for k, q := range fn.Params {
+				if q == prm && pc == nil {
+					pc, idx = cl, k
+				}
+			}
+		}
+	})
+	if pc == nil {
+		return nil, 0
+	}
+	sites := 0
+	okAll := true
+	for _, g := range p.FuncsIn(func(pp string) bool { return pp == pkgCommonArrow }) {
+		core.EachCall(g, func(ci ssa.CallInstruction) {
+			if ci.Common().StaticCallee() != fn {
+				return
+			}
+			sites++
+			args := ci.Common().Args
+			if idx >= len(args) {
+				okAll = false
+				return
+			}
+			var body *ssa.Function
+			switch x := core.Strip(args[idx]).(type) {
+			case *ssa.MakeClosure:
+				body, _ = x.Fn.(*ssa.Function)
+			case *ssa.Function:
+				body = x
+			}
+			grows := false
+			if body != nil {
+				core.EachInstr(body, func(i ssa.Instruction) {
+					if cl, ok := i.(*ssa.Call); ok && cl.Call.IsInvoke() && cl.Call.Method.Name() != "Free" && core.DerivesFrom(cl.Call.Value, func(v ssa.Value) bool {
+						fa, ok := v.(*ssa.FieldAddr)
+						return ok && core.FieldVar(fa) == a.baseF
+					}) {
+						grows = true
+					}
+				})
+			}
+			if !grows {
+				okAll = false
+			}
+		})
+	}
+	if !okAll || sites == 0 {
+		return nil, 0
+	}
+	return pc, sites
+}
+
 // admitHelper: a method of the allocator, called on every path before the underlying call, that panics with the limit error.
 func (a *allocAnchors) admitHelper(fn *ssa.Function, under *ssa.Call) (*ssa.Function, *ssa.Call) {
 	var helper *ssa.Function
@@ -235,10 +299,19 @@ func c14_1(c *core.Ctx, p *core.Prog) {
 				under = cl
 			}
 		})
+		covers := 1
+		viaParam := false
 		if under == nil {
-			continue
+			// a charging helper: the method is handed the underlying (growing) call as a function value —
+			// `l.charge(change, func() []byte { return l.Allocator.Allocate(size) })` — and calls it
+			// between the limit test and the counter update; every call site must pass such a closure
+			under, covers = a.chargedCall(p, fn)
+			if under == nil {
+				continue
+			}
+			viaParam = true
 		}
-		grows := under.Call.Method.Name() != "Free"
+		grows := viaParam || under.Call.Method.Name() != "Free"
 		key := "method=" + fn.Name()
 		pos := p.Pos(fn.Pos())
 		// stores to inuse in this method
@@ -266,7 +339,7 @@ func c14_1(c *core.Ctx, p *core.Prog) {
 				"Free does not decrease the in-use counter by the length of the freed buffer: the reported in-use drifts and later batches are refused (or the limit is overshot)")
 			continue
 		}
-		nAlloc++
+		nAlloc += covers
 		var msgs []string
 		// the limit test may live in a helper of the allocator that is called with the change before the
 		// underlying call: `l.admit(change)`; it is then judged inside the helper
@@ -302,6 +375,14 @@ func c14_1(c *core.Ctx, p *core.Prog) {
 					}
 					return true
 				})
+			}
+			if changeObj == nil {
+				// the change may be a parameter of a charging helper
+				for _, prm := range fn.Params[1:] {
+					if b, _ := intBits(prm.Type()); b == 64 && prm.Object() != nil {
+						changeObj = prm.Object()
+					}
+				}
 			}
 			g.Roles = func(obj types.Object, e ast.Expr) (string, bool) {
 				switch {
@@ -362,6 +443,7 @@ func c14_1(c *core.Ctx, p *core.Prog) {
 			}
 		}
 		c.Check(len(msgs) == 0, key, pos, core.FuncName(fn), "limit tested before the underlying call; in-use advanced by the tested change afterwards", strings.Join(msgs, "; "))
+		c.LastCovers(covers)
 	}
 	if nAlloc < 2 {
 		c.Undecided("methods", "?", "", fmt.Sprintf("expected Allocate and Reallocate, found %d growing methods", nAlloc))
